@@ -298,6 +298,8 @@ def check(prop, tier, runs=None, workers=None, seed=None):
                 jobs.append(ex.submit(run_batch, exe, prop, seed, s, c))
                 s += c
             for j in cf.as_completed(jobs):
+                if j.cancelled():
+                    continue
                 start, results = j.result()
                 for r in results:
                     st = r.get("status")
